@@ -13,6 +13,7 @@ import glob
 import json
 import os
 import re
+import shutil
 import subprocess
 import sys
 import time
@@ -391,9 +392,7 @@ def main(argv):
             rounds = int(os.environ.get("VERIF_ROUNDS", rounds))
             for old in glob.glob(os.path.join(rundir, "r[0-9]*")):
                 if os.path.isdir(old):
-                    for f in glob.glob(os.path.join(old, "*")):
-                        os.remove(f)
-                    os.rmdir(old)
+                    shutil.rmtree(old, ignore_errors=True)   # also coqc's .cases_<k>.aux dot files
             merged = None
             for r in range(rounds):
                 # round 0 is the registered seed; further rounds (thorough tier) re-run the
